@@ -125,6 +125,8 @@ def dict_wf(st: State, r):
     k = z3.Const("wf!k", Val)
     return z3.And(
         cnt >= 0,
+        z3.Implies(cnt == 0, z3.ForAll([k], z3.Not(z3.Select(has, k)))),          # (consequences of the two clauses below,
+        z3.Implies(cnt > 0, z3.Select(has, z3.Select(ord_, 0))),                   #  stated to help instantiation)
         z3.ForAll([i], z3.Implies(z3.And(0 <= i, i < cnt),
                                   z3.And(z3.Select(has, z3.Select(ord_, i)), z3.Select(pos, z3.Select(ord_, i)) == i))),
         z3.ForAll([k], z3.Implies(z3.Select(has, k),
